@@ -213,13 +213,26 @@ pub fn check_graph_c08(b: &Built, rec: &Recorder, c: &mut Counters, weighted_mod
 }
 
 pub fn c08_families(tier: &str) -> Vec<Family> {
+    // one graph costs ~10 ms here (all option combinations x targets x cutoffs x three entry points), so the
+    // quick tier keeps the primed / routed / history families at n <= 2 (plus the undirected n = 3 ones)
     let mut v = primed_small("w12", 2);
-    v.extend(route_small("w12", true));
-    v.extend(hist_small("w12", false));
-    v.push(fam(US, 3, "wtiny", &ORD_ONE));
-    v.push(fam(DS, 3, "wtiny", &ORD_ONE));
-    v.push(fam_primed(US, 3, "w12", &ORD_ONE));
-    if tier != "quick" {
+    if tier == "quick" {
+        for k in [US, DS, USL, DSL] {
+            v.push(fam(k, 2, "w12", &ORD_ROUTES));
+        }
+        v.push(fam(UM, 2, "u", &ORD_ROUTES));
+        v.push(fam(DM, 2, "u", &ORD_ROUTES));
+        v.push(fam(US, 3, "w12", &ORD_ROUTES));
+        v.push(fam_hist(DS, 2, "w12", &ORD_ONE));
+        v.push(fam_hist(US, 2, "w12", &ORD_ONE));
+        v.push(fam_hist(US, 3, "w12", &ORD_ONE));
+        v.push(fam(US, 3, "wtiny", &ORD_ONE));
+    } else {
+        v.extend(route_small("w12", true));
+        v.extend(hist_small("w12", false));
+        v.push(fam(US, 3, "wtiny", &ORD_ONE));
+        v.push(fam(DS, 3, "wtiny", &ORD_ONE));
+        v.push(fam_primed(US, 3, "w12", &ORD_ONE));
         v.push(fam_primed(DS, 3, "w12", &ORD_ONE));
     }
     if tier == "quick" {
